@@ -232,6 +232,9 @@ var cfgOwned = func() func(string) bool {
 	for _, c := range cfgClasses {
 		m[strings.ToLower(c[0][0]+"/"+c[0][1])] = true
 	}
+	for _, k := range graphKeys {
+		m[strings.ToLower(k)] = true
+	}
 	return func(id string) bool { return m[strings.ToLower(id)] }
 }()
 
@@ -300,7 +303,7 @@ func cfgVal(content string) int {
 }
 
 func (k *kindOps) val(o obj) int {
-	if k == cfgOps {
+	if k == cfgOps || k == fedOps {
 		return cfgVal(o.content)
 	}
 	return contentVal(o.content)
@@ -314,6 +317,8 @@ func (k *kindOps) encObjs(xs []obj) string {
 		if k == cfgOps {
 			kind, name := splitCfgID(x.id)
 			t[i] = fmt.Sprintf("%s;%s;%d;%s;%d", hx.EncS(kind), hx.EncS(name), x.mod, x.hash, k.val(x))
+		} else if k == fedOps {
+			t[i] = fmt.Sprintf("%s;%d;%d", hx.EncS(x.id), x.mod, k.val(x))
 		} else {
 			t[i] = fmt.Sprintf("%s;%d;%s;%d;%d", hx.EncS(x.id), x.mod, x.hash, k.val(x), x.size)
 		}
@@ -354,6 +359,19 @@ func (k *kindOps) decodeWrites(run *hx.Run, logs []consul.VerifLog) (ws []string
 				w = enc("U", []string{cfgID(req.Entry)})
 			default:
 				w = enc("?"+string(req.Op), []string{cfgID(req.Entry)})
+			}
+		case structs.FederationStateRequestType:
+			var req structs.FederationStateRequest
+			if err := structs.Decode(l.Data, &req); err != nil {
+				panic(err)
+			}
+			switch req.Op {
+			case structs.FederationStateDelete:
+				w = enc("D", []string{req.State.Datacenter})
+			case structs.FederationStateUpsert:
+				w = enc("U", []string{req.State.Datacenter})
+			default:
+				w = enc("?"+string(req.Op), []string{req.State.Datacenter})
 			}
 		case structs.ACLPolicySetRequestType:
 			var req structs.ACLPolicyBatchSetRequest
@@ -428,6 +446,9 @@ type env struct {
 
 var allKinds = []*kindOps{policyOps, roleOps, tokenOps, cfgOps}
 
+// every replicated table (a round of one kind must leave the others alone)
+var digestKinds = []*kindOps{policyOps, roleOps, tokenOps, cfgOps, fedOps}
+
 func startEnv(run *hx.Run) *env {
 	vp, err := consul.VerifStartPair(filepath.Join(run.Dir, "servers"), primaryQueryTime)
 	if err != nil {
@@ -482,7 +503,7 @@ func (e *env) localOnlyDigest(k *kindOps) string {
 			parts = append(parts, fmt.Sprintf("cfg:%s=%s@%d", o.id, o.content, o.mod))
 		}
 	}
-	for _, ok := range allKinds {
+	for _, ok := range digestKinds {
 		if ok != k {
 			parts = append(parts, fmt.Sprintf("table-%s@%d", ok.name, ok.tableIdx(e.vp, true)))
 		}
@@ -498,6 +519,10 @@ func (e *env) reset(k *kindOps) {
 				ids = append(ids, o.id)
 			}
 		}
+		// graph stream leftovers: a splitter must go before the service-defaults entry it needs
+		sort.SliceStable(ids, func(i, j int) bool {
+			return strings.HasPrefix(ids[i], structs.ServiceSplitter+"/") && !strings.HasPrefix(ids[j], structs.ServiceSplitter+"/")
+		})
 		if len(ids) > 0 {
 			if err := k.delete(e.vp, sec, ids); err != nil {
 				panic(fmt.Sprintf("reset %s: %v", k.name, err))
@@ -512,6 +537,9 @@ type plan struct {
 }
 
 func spellings(k *kindOps) [][]string {
+	if k == fedOps {
+		return fedClasses
+	}
 	if k != cfgOps {
 		return aclClasses
 	}
@@ -873,6 +901,7 @@ func runRounds(run *hx.Run) {
 	e.reset(policyOps)
 	runNames(run, e)
 	runStale(run, e)
+	runFaults(run, e)
 	run.Extra["real_rounds"] = e.rounds
 	run.Extra["real_rounds_seconds"] = int(time.Since(t0).Seconds())
 	run.Extra["seconds_blocked_in_fetch"] = int(e.blocked.Seconds())
